@@ -14,6 +14,8 @@ EXTENDS Naturals, Sequences, FiniteSets
 CertInfo(c) ==
   CASE c = "server"              -> [issuer |-> "ca1", valid |-> "ok", roles |-> 0, role |-> "", names |-> {"test.com", "127.0.0.1"}]
     [] c = "server_othername"    -> [issuer |-> "ca1", valid |-> "ok", roles |-> 0, role |-> "", names |-> {"other.example"}]
+    \* no subjectAltName at all: the name is the subject's common name (the documented fallback of the client's verifier)
+    [] c = "server_cnonly"       -> [issuer |-> "ca1", valid |-> "ok", roles |-> 0, role |-> "", names |-> {"test.com"}]
     [] c = "server_ca2"          -> [issuer |-> "ca2", valid |-> "ok", roles |-> 0, role |-> "", names |-> {"test.com", "127.0.0.1"}]
     [] c = "server_expired"      -> [issuer |-> "ca1", valid |-> "expired", roles |-> 0, role |-> "", names |-> {"test.com", "127.0.0.1"}]
     [] c = "server_notyet"       -> [issuer |-> "ca1", valid |-> "notyet", roles |-> 0, role |-> "", names |-> {"test.com", "127.0.0.1"}]
